@@ -1011,7 +1011,13 @@ fn run_entry(cx: &mut Ctx, inp: &Input) -> Out {
                         ) => Out::Accepted("reply-list".into()),
                         publication::Message::Reply(
                             publication::Reply::Success
-                        ) => Out::Accepted("reply-success".into()),
+                        ) => {
+                            // what the scheduler does next: the accepted
+                            // content becomes visible in RRDP (and later
+                            // requests meet it there, not only staged)
+                            let _ = k.repo_manager().update_rrdp_if_needed();
+                            Out::Accepted("reply-success".into())
+                        }
                         _ => Out::Accepted("reply-query?".into()),
                     }
                 }
@@ -2592,6 +2598,47 @@ fn build_seeds(w: &World, signer: &FastSigner) -> Result<Seeds, String> {
         publication::Message::list_query(), &beta_key
     ).map_err(|e| e.to_string())?.to_bytes().to_vec());
     xml.insert("msg8181", msgs8181);
+    // scripted, validly signed publication requests with unusual CONTENT
+    // (the same element twice in one delta, contradicting elements for one
+    // URI) against objects that are staged or already visible in RRDP
+    {
+        use publication::{Publish, PublishDelta, Update, Withdraw};
+        let delta = |els: Vec<(&str, &str)>| -> Vec<u8> {
+            // (kind, name); content alternates c1/c2 by kind
+            let mut d = PublishDelta::empty();
+            for (kind, name) in els {
+                match kind {
+                    "P" => d.add_publish(Publish::with_hash_tag(u(name), c1.clone())),
+                    "P2" => d.add_publish(Publish::with_hash_tag(u(name), c2.clone())),
+                    "U" => d.add_update(Update::with_hash_tag(
+                        u(name), c2.clone(), c1.to_hash())),
+                    "U2" => d.add_update(Update::with_hash_tag(
+                        u(name), c1.clone(), c2.to_hash())),
+                    "W" => d.add_withdraw(Withdraw::with_hash_tag(
+                        u(name), c1.to_hash())),
+                    _ => d.add_withdraw(Withdraw::with_hash_tag(
+                        u(name), c2.to_hash())),
+                }
+            }
+            publication::Message::delta(d).to_xml_bytes().to_vec()
+        };
+        let scripted8181: Vec<Vec<u8>> = vec![
+            delta(vec![("P", "s/x.txt")]),
+            delta(vec![("W", "s/x.txt"), ("W", "s/x.txt")]),
+            delta(vec![("P", "s/x.txt"), ("P", "s/x.txt")]),
+            delta(vec![("P", "s/y.txt"), ("P2", "s/y.txt")]),
+            delta(vec![("U", "s/x.txt"), ("U", "s/x.txt")]),
+            delta(vec![("U", "s/x.txt"), ("W", "s/x.txt")]),
+            delta(vec![("W2", "s/x.txt"), ("P", "s/x.txt")]),
+            delta(vec![("P", "s/z.txt"), ("W", "s/z.txt")]),
+            delta(vec![("P", "s/x.txt")]),
+            delta(vec![("U", "s/x.txt")]),
+            delta(vec![("W2", "s/x.txt"), ("W2", "s/x.txt"), ("W2", "s/x.txt")]),
+            delta(vec![("W", "s/y.txt"), ("W2", "s/y.txt")]),
+            publication::Message::list_query().to_xml_bytes().to_vec(),
+        ];
+        xml.insert("scripted8181", scripted8181);
+    }
     // self-test: the harness signer is accepted by the publication server
     k.repo_manager().rfc8181(h(EVIL).convert(), Bytes::from(cms8181[0].clone()), k)
         .map_err(|e| format!("seed 8181 list refused: {e}"))?;
@@ -2768,6 +2815,7 @@ struct Gen {
     trunc: u64,
     /// position in the scripted sequence of validly signed requests
     scripted: u64,
+    scripted8181: u64,
 }
 
 fn weight(e: E) -> u32 {
@@ -2902,8 +2950,17 @@ impl Gen {
                 };
                 (vec![self.handle(PARENT), ua], body)
             }
-            E::Rfc8181 => (vec![self.handle(EVIL)],
-                           self.cms(cx, &s.cms8181, &s.xml["msg8181"], cheap)),
+            E::Rfc8181 => {
+                let body = if !cheap && self.rng.chance(1, 8) {
+                    let list = &s.xml["scripted8181"];
+                    let m = &list[(self.scripted8181 % list.len() as u64) as usize];
+                    self.scripted8181 += 1;
+                    (cx.signer.cms(m, Kid::Id, 0), "signed-scripted".into())
+                } else {
+                    self.cms(cx, &s.cms8181, &s.xml["msg8181"], cheap)
+                };
+                (vec![self.handle(EVIL)], body)
+            }
             E::RoutesUpdate | E::RoutesTry | E::RoutesDryrun => {
                 (vec![self.handle(CHILD)], self.json_body(&s.json["routes"], cheap))
             }
@@ -3363,6 +3420,7 @@ fn worker(args: &Args, r: &mut Report) -> Result<(), String> {
         rng: Rng::new(args.shard_seed().wrapping_mul(7919).wrapping_add(child_k)),
         shard: args.shard, nshards: args.nshards.max(1), trunc: 0,
         scripted: 0,
+        scripted8181: 0,
     };
     let avoid: BTreeSet<String> = args.extra.get("avoid").map(|s| {
         s.split(',').map(|x| x.to_string()).collect()
